@@ -7,6 +7,8 @@ from concurrent.futures import ThreadPoolExecutor
 ENV = dict(os.environ, GOFLAGS='-mod=mod', GOPROXY='off', GOSUMDB='off', GOTOOLCHAIN='local')
 root = '/verif/seeded'
 seeds = sorted(d for d in os.listdir(root) if os.path.isdir(os.path.join(root, d)))
+if len(sys.argv) > 1:
+    seeds = [s for s in seeds if s in sys.argv[1:]]  # refreshseeds.py C01-13 C07-13 : only these
 PROPS = subprocess.run([os.environ.get('CRVERIF_BIN', '/verif/bin/crverif'), '-list'], capture_output=True, text=True).stdout.split()
 def run(sd):
     sdir = os.path.join(root, sd)
